@@ -37,14 +37,18 @@ def _ops():
         'unregister_hooked_registered': [U], 'flatten_nt_instance': [L],
         'is_namedtuple_class': ['include/optree/pytypes.h:IsNamedTupleClass', 'include/optree/pytypes.h:IsStructSequenceClass'],
         'dict_order_read': ['include/optree/treespec.h:IsDictInsertionOrdered'], 'shared_iter': [L],
+        'classify_fresh_nt': ['include/optree/pytypes.h:IsNamedTupleClass'],
+        'leaves_fresh_nt': [L, 'include/optree/pytypes.h:IsNamedTupleClass'],
     }
 
 
 A_OPS = ['flatten_pred', 'flatten_custom', 'flatten_with_path', 'map', 'unflatten', 'iter', 'spec_eq', 'spec_hash', 'spec_repr',
-         'pickle', 'register_nt', 'register_dup_hooked', 'unregister_missing_hooked', 'is_namedtuple_class', 'shared_iter']
+         'pickle', 'register_nt', 'register_dup_hooked', 'unregister_missing_hooked', 'is_namedtuple_class', 'shared_iter',
+         'classify_fresh_nt']
 B_OPS = ['flatten_custom', 'register_other', 'register_nt', 'unregister_nt', 'unregister_nt_registered',
          'unregister_other_registered', 'unregister_hooked_registered', 'flatten_nt_instance', 'spec_hash_same', 'spec_repr',
-         'spec_eq', 'unflatten', 'map', 'is_namedtuple_class', 'dict_order_read', 'paths_accessors', 'shared_iter']
+         'spec_eq', 'unflatten', 'map', 'is_namedtuple_class', 'dict_order_read', 'paths_accessors', 'shared_iter',
+         'leaves_fresh_nt']
 
 
 def generate(gen, tier):
